@@ -98,7 +98,8 @@ func (r *rule) match(path string) (bool, error) {
 }
 
 func (r *rule) compile() error {
-	regStr := "^"
+	// (?s): a path may contain a newline, which "." would otherwise not match.
+	regStr := "(?s)^"
 	pattern := r.val
 	// Go through the pattern and convert it to a regexp.
 	// Use a scanner to support utf-8 chars.
